@@ -940,7 +940,16 @@ func runC16(c *ctx) {
 		return
 	}
 	if strings.HasPrefix(c.replay, "lock ") {
-		c16Lock(c, strings.Fields(c.replay)[1] == "1")
+		f := strings.Fields(c.replay)
+		if len(f) != 4 {
+			res.Fail("machinery", c.replay, "bad lock line", "c16:replay")
+			return
+		}
+		c16Lock(c, f[1] == "1", f[2] == "1", f[3] == "1")
+		return
+	}
+	if strings.HasPrefix(c.replay, "stall ") {
+		c16ReplayStall(c, c.replay)
 		return
 	}
 	var cases []*c16Case
@@ -1068,8 +1077,11 @@ func runC16(c *ctx) {
 	}
 	c16Internal(c)
 	tL := time.Now()
-	c16Lock(c, true)
-	c16Lock(c, false)
+	for _, l := range [][3]bool{{true, true, false}, {true, false, true}, {true, true, true},
+		{false, true, false}, {false, false, true}, {false, true, true}} {
+		c16Lock(c, l[0], l[1], l[2])
+	}
+	c16Stalls(c)
 	tS := time.Now()
 	c16Sessions(c)
 	res.Note("phases: lock skeleton %v, sessions %v", tS.Sub(tL).Round(time.Millisecond), time.Since(tS).Round(time.Millisecond))
